@@ -310,20 +310,13 @@ pub fn regexp_test(
     this: JsValue,
     args: &[JsValue],
 ) -> Result<Guarded, JsError> {
-    let JsValue::Object(ref obj) = this else {
-        return Err(JsError::type_error("this is not a RegExp"));
-    };
-
-    let re = get_compiled_regexp(interp, obj)?;
-
-    // Use ToString abstract operation (calls object's toString if needed)
-    let input_arg = args.first().cloned().unwrap_or(JsValue::Undefined);
-    let input = interp.coerce_to_string(&input_arg)?.to_string();
-
-    let is_match = re
-        .is_match(&input)
-        .map_err(|e| JsError::syntax_error(e, 0, 0))?;
-    Ok(Guarded::unguarded(JsValue::Boolean(is_match)))
+    // test() is exec() !== null: it honours and advances lastIndex for global and sticky
+    // expressions
+    let found = regexp_exec(interp, this, args)?;
+    Ok(Guarded::unguarded(JsValue::Boolean(!matches!(
+        found.value,
+        JsValue::Null
+    ))))
 }
 
 /// The `groups` property of a match result: undefined when the expression has no named
@@ -398,7 +391,9 @@ pub fn regexp_exec(
     // Use the provider's find method which handles start position
     let match_result = re
         .find(&input, last_index)
-        .map_err(|e| JsError::syntax_error(e, 0, 0))?;
+        .map_err(|e| JsError::syntax_error(e, 0, 0))?
+        // (a sticky expression matches at lastIndex or not at all)
+        .filter(|found| !is_sticky || found.start == last_index);
 
     match match_result {
         Some(regex_match) => {
